@@ -84,7 +84,7 @@ class Ctx(object):
         self.pc.append(f)
 
     def feasible(self, extra):
-        v = smt.check(self.pc + [extra], timeout_ms=3000, want_model=False, try_cvc5=False)
+        v = smt.check(self.pc + [extra], timeout_ms=2000, want_model=False, try_cvc5=False, single=True)
         return v.status != 'unsat'
 
     def branch(self, cond):
@@ -346,6 +346,10 @@ class Interp(object):
             if name in env[0]:
                 return env[0][name]
             env = env[1]
+        if fr.closure.cls is not None and name.startswith('__') and not name.endswith('__'):
+            ca = self.world.class_attr(self, fr.closure.cls, name)     # class-scope name (default-argument expressions)
+            if ca is not NotImplemented:
+                return ca
         return self.world.global_lookup(self, fr.closure.module, name)
 
     def store_name(self, name, value):
@@ -513,6 +517,8 @@ class Interp(object):
             i = self.ctx.fresh('k%d' % ordinal, z3.IntSort())
             self.ctx.assume(z3.And(i >= 0, i < n))
             self.ctx.assume(spec.inv(self, fr.env, i, seq))
+            if getattr(spec, 'unfold', None):
+                self.ctx.assume(spec.unfold(self, fr.env, i))
             self.assign(st.target, self.world.ops.seq_elem(self, seq, i))
             try:
                 self.exec_block(st.body)
